@@ -65,11 +65,51 @@ def seeded():
     return head + '\n'.join(rows)
 
 
+def status():
+    """one row per property: registered?, theorems checked on the last committed evidence, axioms, cases,
+    findings fixed / still listed, seeded changes caught"""
+    import re
+    man = json.load(open(os.path.join(HERE, 'MANIFEST.json')))
+    reg = {c['property_id']: c for c in man['checks']}
+    na = {c['property_id']: c['reason'] for c in man.get('not_applicable', [])}
+    kf = open(os.path.join(HERE, 'known_findings.txt')).read().split('\n')
+    rows = []
+    for i in range(1, 21):
+        pid = 'C%02d' % i
+        fixed = [l for l in kf if l.startswith('fixed: property=%s ' % pid)]
+        listed = [l for l in kf if l.startswith('finding: property=%s ' % pid)]
+        caught = missed = 0
+        for d in glob.glob(os.path.join(HERE, 'seeded', pid + '-*')):
+            try:
+                if json.load(open(os.path.join(d, 'meta.json'))).get('superseded'): continue
+                r = json.load(open(os.path.join(d, 'result.json')))
+            except Exception: continue
+            if not r.get('valid_seed'): continue
+            det = any(c.get('detected') for c in (r.get('checks') or {}).values())
+            caught += det; missed += (not det)
+        ev = {}
+        try: ev = json.load(open(os.path.join(HERE, 'evidence', pid + '.json')))
+        except Exception: pass
+        cov = ev.get('coverage', {})
+        thms = cov.get('theorems', [])
+        ax = sorted({a.split('.')[0] for t in thms for a in (t.get('axioms') or [])})
+        if pid in reg:
+            rows.append('| %s | registered | %d | %s | %s | %d fixed, %d listed | %d / %d |' % (
+                pid, len([t for t in thms if t.get('status') == 'proved']), ', '.join(ax) or 'none', cov.get('evaluations', '?'),
+                len(fixed), len(listed), caught, caught + missed))
+        else:
+            rows.append('| %s | not claimed: %s | | | | %d fixed, %d listed | |' % (pid, na.get(pid, '?')[:80], len(fixed), len(listed)))
+    head = ('| id | status | theorems checked (last quick run) | axiom groups in Print Assumptions | oracle/correspondence evaluations | genuine defects | seeded changes caught |\n'
+            '|---|---|---|---|---|---|---|\n')
+    return head + '\n'.join(rows)
+
+
 def main():
     p = os.path.join(HERE, 'DESIGN.md')
     text = open(p).read()
     text = block('per-check reports', reports(), text)
     text = block('seeded changes', seeded(), text)
+    text = block('status table', status(), text)
     open(p, 'w').write(text)
     print('DESIGN.md updated')
 
